@@ -1685,7 +1685,7 @@ func iterationGuarded(fn *ssa.Function, l jsonLeaf, reg *ssa.Global) (bool, stri
 
 func checkC16(w *World, r *Recorder) propInfo {
 	info := propInfo{
-		Explanation: "N1: the only in-repo instructions that update the register map are in the registration function reachable solely from RegisterProfile and the package initialisers; no delete/clear on it and no assignment of the variable outside its initialiser. N2: on the path summary of that function the map update happens only on the path where the comma-ok lookup of the same key reported 'absent' and the JSON-tag discovery returned nil; every other path returns an error and performs no update. N3: every in-repo factory (GetClaims) returns a freshly allocated claims struct whose component container is freshly allocated, with no package-level pointer stored into it (provenance summaries: results only-fresh); no package-level variable of claims or container type exists; the decoders call the factory inside the call. N4: in DecodeClaimsFromJSON every selection made inside the range over the register is dominated by the name-equality edge (so the result does not depend on iteration order) and conflicting matches return an error. Not decided: behaviour of third-party profiles registered at run time.",
+		Explanation: "N1: the only in-repo instructions that update the register map are in the registration function reachable solely from RegisterProfile and the package initialisers; no delete/clear on it and no assignment of the variable outside its initialiser. N2: on the path summary of that function the map update happens only on the path where the comma-ok lookup of the same key reported 'absent' and the JSON-tag discovery returned nil; every other path returns an error and performs no update. N3: every in-repo factory (GetClaims) returns a freshly allocated claims struct whose component container is freshly allocated, with no package-level pointer stored into it (provenance summaries: results only-fresh); no package-level variable of claims or container type exists; the decoders call the factory inside the call. N4: in DecodeClaimsFromJSON every selection made inside the range over the register is dominated by the name-equality edge (so the result does not depend on iteration order) and conflicting matches return an error. Not decided: behaviour of third-party profiles registered at run time. N8: no setter puts mutable package-level memory into the object it is called on. N9: NewClaims and the claims dispatchers write no package-level memory (no cache or memo a later registration would not reach).",
 		Rule:        "one obligation per writer site / path / factory / definition",
 		Trusted:     []string{"go/types+go/ssa", "path engine; E5 provenance summaries; dominance guard facts"},
 	}
